@@ -31,6 +31,12 @@ def configs(tier):
             out.append(dict(term="norm_statio", d=d, ns=ns, H=H))
             for nt in (1, 2):
                 out.append(dict(term="norm_nonstatio", d=d, ns=ns, nt=nt, H=H))
+    for B in (1, 2):
+        out.append(dict(term="ic+obs_ode", B=B, H=H))
+    for kind in ("ode", "statio", "nonstatio"):
+        for B in (2,):
+            out.append(dict(term="obs", kind=kind, B=B, obs_eq=False, n_out=3, sl=(-1, None), w="scalar", H=H, slice_solution=(0, 2)))
+            out.append(dict(term="obs", kind=kind, B=B, obs_eq=True, n_out=3, sl=(-2, -1), w="scalar", H=H, slice_solution=(0, 2)))
     for kind in ("ode", "statio", "nonstatio"):
         for B in (1, 2, 3):
             for obs_eq in (False, True):
@@ -66,6 +72,26 @@ def run(cfg, R):
             w = loss_.loss_weights.initial_condition[()]
             return mul(w, tm.ssum([sq(sub(D(p.nn_params, z, None, c), u0_[c])) for c in range(n_out)]))
         tname = "initial_condition"; variants = ["batch_t"]
+
+    elif term == "ic+obs_ode":
+        B = cfg["B"]
+        u = mk_pinn(1, 1, "ODE", deg=2, H=H, ot=ot_theta)
+        params = Params(nn_params=u.init_params(), eq_params={"theta": jnp.array(0.3), "kappa": jnp.array(1.1)})
+        t0 = jnp.array(0.25); u0 = jnp.array([0.5])
+        obs = {"pinn_in": jnp.arange(1, B + 1).reshape(B, 1) * 0.125, "val": jnp.arange(1, B + 1).reshape(B, 1) * 0.25,
+               "eq_params": {"theta": jnp.arange(1, B + 1).reshape(B, 1) * 0.5}}
+        loss = LossODE(u=u, dynamic_loss=None, initial_condition=(t0, u0), loss_weights=LossWeightsODE(initial_condition=jnp.array(0.75), observations=jnp.array(1.25)), params=params)
+        batch = ODEBatch(temporal_batch=jnp.array([0.5, 0.7]), obs_batch_dict=obs)
+        name = f"ic+obs_ode/B{B}"
+        R.note(functions=["jinns.loss.LossODE.evaluate (initial condition and observation blocks together)"])
+        def oracle(A, variant=None):
+            loss_, p, b_ = A
+            t0_, u0_ = loss_.initial_condition
+            w = loss_.loss_weights.initial_condition[()]
+            th = p.eq_params["theta"][()] if variant != "obs_theta" else b_.obs_batch_dict["eq_params"]["theta"][0, 0]
+            # the initial condition is evaluated with the caller's theta, not with the observed rows
+            return mul(w, sq(sub(mul(D(p.nn_params, [t0_[()]]), th), u0_[0])))
+        tname = "initial_condition"; variants = ["obs_theta"]
 
     elif term == "ic_pde":
         d, B, n_out, wk, u0shape = cfg["d"], cfg["B"], cfg["n_out"], cfg["w"], cfg["u0shape"]
@@ -123,9 +149,11 @@ def run(cfg, R):
         d = {"ode": 0, "statio": 2, "nonstatio": 1}[kind]
         d_in = {"ode": 1, "statio": 2, "nonstatio": 2}[kind]
         eq_type = {"ode": "ODE", "statio": "statio_PDE", "nonstatio": "nonstatio_PDE"}[kind]
-        u = mk_pinn(d_in, n_out, eq_type, deg=2, H=H, ot=ot_theta)
+        ss = cfg.get("slice_solution")
+        u = mk_pinn(d_in, n_out, eq_type, deg=2, H=H, ot=ot_theta, slice_solution=(jnp.s_[ss[0]:ss[1]] if ss else None))
         params = Params(nn_params=u.init_params(), eq_params={"theta": jnp.array(0.3), "kappa": jnp.array(1.1)})
-        comps = list(range(n_out)) if sl is None else list(range(sl[0], sl[1]))
+        sol = list(range(n_out))[slice(*ss)] if ss else list(range(n_out))          # components that are the solution
+        comps = sol if sl is None else sol[slice(sl[0], sl[1])]                        # observed ones among them
         k = len(comps)
         w0 = jnp.array(0.75) if wk == "scalar" else jnp.arange(1, k + 1) * 0.5
         obs = {"pinn_in": jnp.arange(1, B * d_in + 1).reshape(B, d_in) * 0.125, "val": jnp.arange(1, B * k + 1).reshape(B, k) * 0.25,
@@ -140,7 +168,7 @@ def run(cfg, R):
         else:
             loss = LossPDENonStatio(u=u, dynamic_loss=None, loss_weights=LossWeightsPDENonStatio(observations=w0), params=params, **kw)
             batch = PDENonStatioBatch(times_x_inside_batch=jnp.ones((1, 2)) * 0.4, times_x_border_batch=None, obs_batch_dict=obs)
-        name = f"obs/{kind}/B{B}/{'obs-theta' if obs_eq else 'no-obs-param'}/out{n_out}/sl{sl}/{wk}"
+        name = f"obs/{kind}/B{B}/{'obs-theta' if obs_eq else 'no-obs-param'}/out{n_out}/sl{sl}/{wk}" + (f"/sol{ss}" if ss else "")
         R.note(functions=["jinns.loss._loss_utils.observations_loss_apply[PINN]", "jinns.parameters._params._update_eq_params_dict", "_get_vmap_in_axes_params",
                           "jinns.loss.%s.evaluate" % {"ode": "LossODE", "statio": "LossPDEStatio", "nonstatio": "LossPDENonStatio"}[kind]])
         def oracle(A, variant=None):
